@@ -156,6 +156,8 @@ def base_calls() -> list[dict]:
         dict(fn="retrieval_precision", cls=None, t=dict(input=_r(TK, N), target=_lab(TK, N)), kw=dict(k=2, num_tasks=TK), tag="tasks"),
         dict(fn="retrieval_recall", cls="RetrievalRecall", t=dict(input=_r(N), target=_lab(N)), kw=dict(k=2), tag="1d"),
         dict(fn="retrieval_recall", cls=None, t=dict(input=_r(TK, N), target=_lab(TK, N)), kw=dict(k=2, num_tasks=TK), tag="tasks"),
+        dict(fn=None, cls="RetrievalPrecision", t=dict(input=_r(N), target=_lab(N), indexes=_cls(N)), kw=dict(k=2, num_queries=C), tag="queries"),
+        dict(fn=None, cls="RetrievalRecall", t=dict(input=_r(N), target=_lab(N), indexes=_cls(N)), kw=dict(k=2, num_queries=C), tag="queries"),
         dict(fn="frequency_at_k", cls=None, t=dict(input=_r(N)), kw=dict(k=0.5)),
         dict(fn="num_collisions", cls=None, t=dict(input=_cls(N)), kw={}),
         dict(fn="perplexity", cls="Perplexity", t=dict(input=_r(2, N, C), target=(torch.arange(2 * N) % C).reshape(2, N)), kw={}),
